@@ -1,4 +1,7 @@
 package routing
 
-// number of table operations in the CIDR bounded history (quick tier)
+// number of table operations in the CIDR bounded history
 const c08Ops = 2
+
+// announcements for one key in the order harnesses
+const cOrdAdds = 3
